@@ -7,7 +7,7 @@ CONSTANTS
     Faults = {}
     ClientClose = TRUE
     Compliant = FALSE
-    Bug = {}
+    Bug = {"closeleaves"}
 SPECIFICATION Spec
 INVARIANTS Pairing NothingAfterClose Released NoStuckCaller SlotsLive OneTerminal
 PROPERTIES SealedShrinks ChanCloseScoped CloseTakesAll
